@@ -128,4 +128,33 @@ theorem mk_ok {xs ys : List Rat} {xdim fdim : Rat} {o : Obj} (hmk : mk xs ys xdi
           have := strictlyIncreasing_spec _ hinc i (by simpa using hi)
           simpa using this
 
+
+/-! ### request level: what the driver runs for one `Interpolate` query -/
+
+theorem run1D_between_aux {xs ys : List Rat} {xdim fdim pref mul v : Rat} {o : Obj}
+    (hmk : mk xs ys xdim fdim = .ok o) (h0 : o.x 0 ≤ v) (h1 : v ≤ o.x (o.N - 1)) :
+    ∃ r j, run1D xs ys xdim fdim pref mul [(v, -1)] = .ok [(r, j)] ∧ j + 1 < o.N ∧ o.x j ≤ v ∧ v ≤ o.x (j + 1)
+      ∧ rmin (pref * mul * o.y j) (pref * mul * o.y (j + 1)) ≤ r
+      ∧ r ≤ rmax (pref * mul * o.y j) (pref * mul * o.y (j + 1)) := by
+  obtain ⟨hN, hx, hst, hp⟩ := mk_ok hmk
+  obtain ⟨j, o', hl, hj, hb0, hb1⟩ :=
+    locate_fresh_bracket ((o.setPrefactor pref).multiply mul) (show 2 ≤ o.N by omega) hx hst h0 h1
+  have hi := interpolate_eq hl
+  refine ⟨pref * mul * cubic o.N o.x o.y j v, j, ?_, hj, hb0, hb1, ?_⟩
+  · unfold run1D
+    rw [hmk]
+    simp [queries, query, hl, hi, bind, Except.bind, pure, Except.pure]
+    rfl
+  · exact scale_between (pref * mul) (cubic_between hx hj hb0 hb1)
+
+/-! ### a concrete table for the non-vacuity examples -/
+
+def exX : Nat → Rat := fun i => [0, 1, 3, 7].getD i 0
+def exY : Nat → Rat := fun i => [5, -2, -2, 11].getD i 0
+
+theorem exX_inc : StrictInc 4 exX := by
+  intro i hi
+  have : i = 0 ∨ i = 1 ∨ i = 2 := by omega
+  rcases this with rfl | rfl | rfl <;> decide +kernel
+
 end Lp.C01
